@@ -1,6 +1,7 @@
 """C15 - response headers act as a case-insensitive map; cookies get separate lines; cookie attributes exact;
 URI-bearing helpers emit ASCII that decodes back."""
 import re
+import sys
 PROP = 'C15'
 LEAN_MODULES = ['FalconModel.RespHeadersProofs', 'FalconModel.CookieOutProofs', 'FalconModel.RespPropsProofs']
 DRIVERS = ['hddriver', 'cwdriver', 'rpdriver']
@@ -146,13 +147,19 @@ ASSUMPTIONS = [
     'a raw line appended AFTER a cookie-API call on the same name is not judged (falcon documents that API lines are emitted after the raw ones; the statement does not say who wins), except that WSGI and ASGI must agree',
     'unset_cookie is judged on: empty value, Expires in the past, no Max-Age, and the domain / path / samesite it was given; attributes inherited from an earlier set_cookie of the same name (Secure, HttpOnly, ...) are pinned upstream behaviour and not judged',
     'Cw theorems that read a line back assume Domain / Path (and the samesite given to unset_cookie) contain no ";" (RFC 6265 av-octets); the model itself and the correspondence cover such values too (they are emitted raw). '
-    'max_age is an int, a str or a finite float; expires is a datetime whose tzinfo (if any) yields a whole-second utcoffset; the clock is after 1970. '
+    'max_age is an int (any magnitude below the 4300-digit conversion limit; bool included), a float or a str, read as documented ("max_age (int) ... Coercion to int is attempted if provided with float or str"): an int is itself, '
+    'a finite float is truncated towards zero, an ASCII decimal integer literal (sign, blanks, single underscores) is that integer - the attribute is Max-Age=<exactly that integer>, computed by the oracle with integer / rational arithmetic only; '
+    'an ASCII str that is no integer literal (exponent, fraction, hex, inf, nan, empty) must be refused with ValueError and a non-finite float with ValueError / OverflowError, as int() does (non-finite floats: oracle only, the Cw model takes finite floats); '
+    'non-ASCII strings (Unicode digits / blanks) are judged by the model correspondence only; expires is a datetime whose tzinfo (if any) yields a whole-second utcoffset; the clock is after 1970. '
     'An expires before the year 1000 is rendered by glibc strftime without zero padding ("01 Jan 999"): transcribed as such in the model, outside the oracle\'s domain (years 1971-2090)',
 ]
 RULE = ('histories of 1..12 operations (set / append / delete / get / set_headers as list and dict incl. Set-Cookie items at any position / 16 typed properties '
         'set, set-to-None and del / append_link / set_cookie / unset_cookie / raw append_header(Set-Cookie)) over ~25 header names in random per-letter casing and values over '
         'printable ASCII + latin-1, on falcon.Response and falcon.asgi.Response; after every operation the touched header is read back in three casings; finally both '
         '_wsgi_headers() and _asgi_headers() are emitted. Cookie cases: random attribute combinations (expires naive/aware, max-age int/float/str/0, domain, path, secure '
+        '[max_age VALUES, in the histories, the full-app cookie cases and the Cw lines alike: 40% ordinary lifetimes; 38% ints at and around (-2..+3) 2**31, 2**32, 2**53, 2**63, 2**64, sys.maxsize, 10**17, 10**30 and random odd 54..200-bit ints, '
+        '15% of them negative, given as int, as a decimal str (sign, leading zeros, blanks / tab / newline around, underscores) or as the float of it; bools, -0, small negative / fractional floats, 1e20, 1.7e308, 5e-324, 2**53 + 0.5; and, in the '
+        'full-app cookie cases and the Cw lines, values denoting no integer (\'1e3\', \'15.3\', \'0x10\', \'inf\', \'nan\', \'\', \'1__0\' ..., float inf / nan in the full-app cases) which must be refused; the oracle requires Max-Age=<exactly the requested integer>] '
         'tri-state x secure_cookies_by_default, http_only, same_site in any case incl. invalid, partitioned) through full WSGI and ASGI apps, echoed back through the request API. '
         'Cookie lines: 1..5 set_cookie / unset_cookie calls on one falcon.Response or falcon.asgi.Response (22 names incl. reserved, non-ASCII, colon, empty; values incl. non-ASCII; the attribute '
         'combinations above plus datetimes over years 1..9999 with second-granular offsets, overflow at both ends, leap days, max_age strings with sign / blanks / underscores / garbage, negative and huge '
@@ -286,13 +293,64 @@ def parse_set_cookie(line):
     return name, val, attrs
 
 
+_INT_LITERAL = re.compile(r'[ \t\n\r\x0b\x0c]*([+-]?)([0-9]+(?:_[0-9]+)*)[ \t\n\r\x0b\x0c]*\Z')
+
+
+def max_age_reading(m):
+    """What `max_age=m` asks for, read off the documentation - "max_age (int): Defines the lifetime of the cookie in seconds ... Coercion to
+    int is attempted if provided with float or str" - with arbitrary-precision arithmetic and without going through any other number type:
+      ('int', n)          the attribute must be Max-Age=<n>, the exact integer: an int (bool included) is itself; a finite float is truncated
+                          towards zero (exact rational arithmetic); an ASCII str that is a decimal integer literal (sign, surrounding
+                          blanks, single underscores between digits as int() documents) is that integer
+      ('reject', names)   no integer is denoted - an ASCII str that is no decimal integer literal ('1e3', '15.3', '0x10', 'inf', '') makes the
+                          coercion fail with ValueError, a non-finite float with ValueError (nan) or OverflowError (inf) as int() does
+      None                not decided here (non-ASCII strings: Unicode digits / blanks; only the model transcribes those)"""
+    import math
+    from fractions import Fraction
+    if isinstance(m, int):
+        return ('int', m + 0)
+    if isinstance(m, float):
+        if not math.isfinite(m):
+            return ('reject', ('ValueError', 'OverflowError'))
+        q = Fraction(m)
+        n = abs(q.numerator) // q.denominator
+        return ('int', -n if q < 0 else n)
+    if isinstance(m, str) and m.isascii():
+        mt = _INT_LITERAL.match(m)
+        if mt is None:
+            return ('reject', ('ValueError',))
+        n = 0
+        for ch in mt.group(2):
+            if ch != '_':
+                n = n * 10 + (ord(ch) - 48)
+        return ('int', -n if mt.group(1) == '-' else n)
+    return None
+
+
+def max_age_class(m):
+    """label of a max_age value for the input-distribution table"""
+    r = max_age_reading(m)
+    t = 'bool' if isinstance(m, bool) else type(m).__name__
+    if r is None:
+        return t + '_undecided'
+    if r[0] == 'reject':
+        return t + '_denoting_no_integer'
+    a = abs(r[1])
+    return t + ('_zero' if a == 0 else '_negative' if r[1] < 0 else '_below_2**31' if a < 2 ** 31 else '_2**31_to_2**53' if a <= 2 ** 53 else '_above_2**53_to_2**63' if a < 2 ** 63
+                else '_2**63_and_above')
+
+
 def expected_cookie_attrs(kw, default_secure):
     """Attributes a successful set_cookie(**kw) must produce, read off the statement."""
     exp = {}
     if kw.get('expires') is not None:
         exp['expires'] = imf(kw['expires'])
     if kw.get('max_age') is not None:
-        exp['max-age'] = str(int(float(kw['max_age'])))
+        r = max_age_reading(kw['max_age'])
+        if r is not None and r[0] == 'int':
+            exp['max-age'] = '%d' % r[1]        # exactly the integer requested, at any magnitude
+        elif r is None:
+            raise AssertionError('max_age outside the domain of the oracle: %r' % (kw['max_age'],))
     if kw.get('domain'):
         exp['domain'] = kw['domain']
     if kw.get('path'):
@@ -322,7 +380,42 @@ def same_site_valid(v):
     return (not v) or v.lower() in ('lax', 'strict', 'none')
 
 
-def rand_cookie_kwargs(rnd):
+_MA_WIDTHS = [2 ** 31, 2 ** 32, 2 ** 53, 2 ** 63, 2 ** 64, sys.maxsize, 10 ** 17, 10 ** 30]      # every width a number conversion could go through
+_MA_NO_INTEGER = ['1e3', '15.3', '0x10', 'inf', 'nan', '-inf', 'Infinity', '1e-3', '1.', '.5', '15.0', 'abc', '', ' ', '1 2', '-', '+', '0b1', '1,000', '1__0', '_1', '1_', '+ 5', '--5',
+                  float('inf'), float('-inf'), float('nan')]
+
+
+def rand_max_age(rnd, rejects=False):
+    """max_age VALUES: the ordinary lifetimes; ints at and around 2**31, 2**32, 2**53, 2**63, 2**64, sys.maxsize, 10**17, 10**30 and random 54..200-bit
+    ints, positive and negative, given as int, as a decimal str (sign, blanks, leading zeros, underscores) or as the float of it; bools; small
+    negative / fractional floats and huge floats; with `rejects` also values that denote no integer (exponent / fraction / hex / inf / nan / empty
+    strings, non-finite floats) - those must make set_cookie fail"""
+    r = rnd.random()
+    if r < 0.40:
+        return rnd.choice([0, 0, 1, 300, 3600, 2 ** 31, 15.7, 0.0, 0.9, '15', '0', '007', None])
+    if r < 0.78:
+        if rnd.random() < 0.7:
+            n = rnd.choice(_MA_WIDTHS) + rnd.choice([-2, -1, -1, 0, 0, 1, 1, 2, 3])
+        else:
+            n = rnd.getrandbits(rnd.choice([54, 55, 60, 63, 64, 70, 100, 200])) | 1
+        if rnd.random() < 0.15:
+            n = -n
+        k = rnd.random()
+        if k < 0.55:
+            return n
+        if k < 0.9:
+            digits = '%d' % abs(n)
+            if rnd.random() < 0.15:
+                digits = '_'.join(digits[i:i + 3] for i in range(0, len(digits), 3))
+            text = ('-' if n < 0 else rnd.choice(['', '', '', '+'])) + rnd.choice(['', '', '', '00']) + digits
+            return rnd.choice(['%s', '%s', '%s', ' %s ', '\t%s\n', '%s ']) % text
+        return float(n)
+    if r < 0.90 or not rejects:
+        return rnd.choice([True, False, -1, -300, -2 ** 31, ' 7 ', '+7', '-3', '1_000', '-0', 15.0, 15.9, -0.5, -0.0, -15.7, 1e20, 2.5e15, 1e-9, float(2 ** 53), float(2 ** 63), 1.7e308, 5e-324, 4503599627370497.5])
+    return rnd.choice(_MA_NO_INTEGER)
+
+
+def rand_cookie_kwargs(rnd, rejects=False):
     from datetime import datetime, timezone, timedelta
     kw = {}
     r = rnd.random()
@@ -333,7 +426,7 @@ def rand_cookie_kwargs(rnd):
             base = base.replace(tzinfo=timezone(timedelta(minutes=off)))
         kw['expires'] = base
     if rnd.random() < 0.6:
-        kw['max_age'] = rnd.choice([0, 0, 1, 300, 3600, 2 ** 31, 15.7, 0.0, 0.9, '15', '0', '007', None])
+        kw['max_age'] = rand_max_age(rnd, rejects)
     if rnd.random() < 0.5:
         kw['domain'] = rnd.choice(['example.com', '.example.com', 'a.b.example', '', None])
     if rnd.random() < 0.5:
@@ -506,8 +599,9 @@ def set_cookie_value(value, kw):
     """what set_cookie(name, value, **kw) asks a user agent to store: the value, or None when the call itself is an expiry
     (Max-Age <= 0; without Max-Age an Expires in the past)"""
     from datetime import datetime, timezone
-    if kw.get('max_age') is not None:
-        return None if int(float(kw['max_age'])) <= 0 else value
+    r = max_age_reading(kw['max_age']) if kw.get('max_age') is not None else None
+    if r is not None and r[0] == 'int':
+        return None if r[1] <= 0 else value
     e = kw.get('expires')
     if e is not None:
         e = e.replace(tzinfo=timezone.utc) if e.tzinfo is None else e
@@ -1412,7 +1506,7 @@ def _cookies(ctx):
                 else:
                     resp.append_header(op[1], op[2])
                 script['errors'].append(None)
-            except (ValueError, KeyError) as e:
+            except (ValueError, KeyError, OverflowError) as e:
                 script['errors'].append(type(e).__name__)
 
     def read(req, names):
@@ -1470,7 +1564,8 @@ def _cookies(ctx):
             for _ in range(rnd.randint(1, 5)):
                 r = rnd.random()
                 if r < 0.7:
-                    ops.append(['set', rnd.choice(NAMES), rand_cookie_value(rnd), rand_cookie_kwargs(rnd)])
+                    ops.append(['set', rnd.choice(NAMES), rand_cookie_value(rnd), rand_cookie_kwargs(rnd, rejects=True)])
+                    if ops[-1][3].get('max_age') is not None: ctx.count('cookie_max_age_' + max_age_class(ops[-1][3]['max_age']))
                 elif r < 0.85:
                     kw = {}
                     if rnd.random() < 0.4: kw['samesite'] = rnd.choice(['Lax', 'Strict', 'None', ''])
@@ -1508,9 +1603,15 @@ def _cookies(ctx):
                 if op[0] == 'set':
                     valid = same_site_valid(op[3].get('same_site'))
                     legal = cookie_name_legal(op[1])
+                    ma = max_age_reading(op[3]['max_age']) if op[3].get('max_age') is not None else None
                     if not legal:
                         if err != 'KeyError':
                             fail_attr = fail_attr or f'set_cookie({op[1]!r}) -> {err}: expected KeyError for a name the request API cannot read back'
+                    elif ma is not None and ma[0] == 'reject':
+                        # the value denotes no integer number of seconds: the documented coercion to int fails
+                        if err not in ma[1]:
+                            fail_attr = fail_attr or (f'set_cookie(max_age={op[3]["max_age"]!r}) ' + ('was accepted' if err is None else f'raised {err}') +
+                                                      f': no integer is denoted, the coercion to int must fail with {" / ".join(ma[1])}')
                     elif valid and err:
                         fail_attr = fail_attr or f'set_cookie({op[1]!r}, {op[2]!r}, {op[3]}) raised {err}'
                     elif not valid and err != 'ValueError':
@@ -1669,7 +1770,7 @@ def rand_cw_kwargs(rnd):
         kw['expires'] = base
     if rnd.random() < 0.15:
         kw['max_age'] = rnd.choice(['abc', '', ' 12 ', '+5', '-3', '1_000', '1__0', '_1', '1.5', '0x10', '\t7\n', '1 2', '-', '\xa05', '\x1c5', '7\x1f', '\x856', -1, -300, 10 ** 20, -0.9, -15.7, 1e20,
-                                    2.5, 1e-9, 3.0, '12\xe9'])
+                                    2.5, 1e-9, 3.0, '12\xe9'] + [m for m in _MA_NO_INTEGER if isinstance(m, str)])
     if rnd.random() < 0.1:
         kw['same_site'] = rnd.choice(['LaK', 'STRİCT', 'lax ', ' lax', 'n\xf6ne', 'strict\n', 'L', 'laxlax', 'NoNe', 'sTRICT'])
     if rnd.random() < 0.08:
@@ -1723,6 +1824,7 @@ def _cookie_lines(ctx):
                 ops.append(['set', name, val, kw])
                 fields = cw_fields(name, val, kw)
                 ctx.count('cw_set')
+                if kw.get('max_age') is not None: ctx.count('cw_max_age_' + max_age_class(kw['max_age']))
                 try:
                     resp.set_cookie(name, val, **kw)
                     sess.op('set ' + fields, 'ok')
